@@ -140,6 +140,7 @@ func checkC06(r *run, c *PktzCase) (CaseInfo, error) {
 	if c.AbsSendTime != 0 {
 		pk.EnableAbsSendTime(c.AbsSendTime)
 	}
+	absID := c.AbsSendTime // current abs-send-time id (0 = off); "enable" operations change it
 
 	var (
 		haveSeq, haveTS    bool
@@ -189,6 +190,11 @@ func checkC06(r *run, c *PktzCase) (CaseInfo, error) {
 
 	for i, op := range c.Ops {
 		switch op.Kind {
+		case "enable":
+			pk.EnableAbsSendTime(int(op.N))
+			absID = int(op.N)
+			seenOther = true
+			ci.class("abs-send-time-id-changed-mid-stream")
 		case "skip":
 			if op.Steer != 0 && haveTS {
 				op.N = uint32(op.Steer-2) - (t0 + acc)
@@ -278,10 +284,10 @@ func checkC06(r *run, c *PktzCase) (CaseInfo, error) {
 				if p.Padding || p.PaddingSize != 0 {
 					return ci, failf("op %d: packet %d has padding", i, j)
 				}
-				if c.AbsSendTime != 0 && last {
+				if absID != 0 && last {
 					ids := p.GetExtensionIDs()
-					if !p.Extension || len(ids) != 1 || int(ids[0]) != c.AbsSendTime {
-						return ci, failf("op %d: last packet carries extensions %v, want exactly abs-send-time id %d", i, ids, c.AbsSendTime)
+					if !p.Extension || len(ids) != 1 || int(ids[0]) != absID {
+						return ci, failf("op %d: last packet carries extensions %v, want exactly abs-send-time id %d", i, ids, absID)
 					}
 					v := p.GetExtension(ids[0])
 					if len(v) != 3 {
@@ -293,7 +299,7 @@ func checkC06(r *run, c *PktzCase) (CaseInfo, error) {
 						return ci, failf("op %d: abs-send-time %#06x, the send instant %d ns is %#06x in 6.18 fixed point", i, got, op.ClockNs, want)
 					}
 				} else if p.Extension || len(p.GetExtensionIDs()) != 0 {
-					return ci, failf("op %d: packet %d of %d carries a header extension (abs-send-time id %d)", i, j, len(pkts), c.AbsSendTime)
+					return ci, failf("op %d: packet %d of %d carries a header extension (abs-send-time id %d)", i, j, len(pkts), absID)
 				}
 				size := p.MarshalSize()
 				b, err := p.Marshal()
@@ -301,7 +307,7 @@ func checkC06(r *run, c *PktzCase) (CaseInfo, error) {
 					return ci, failf("op %d: packet %d does not marshal: %v (%d bytes, MarshalSize %d)", i, j, err, len(b), size)
 				}
 				if size > int(c.MTU) {
-					if c.AbsSendTime != 0 && last && size <= int(c.MTU)+8 && len(sp.frags[j])+12 <= int(c.MTU) {
+					if absID >= 1 && absID <= 14 && last && size <= int(c.MTU)+8 && len(sp.frags[j])+12 <= int(c.MTU) {
 						if e := r.finding("F09-abs-send-time-exceeds-mtu", "op %d: with abs-send-time enabled the last packet serialises to %d bytes, MTU %d (payload budget does not reserve the 8-byte extension)", i, size, c.MTU); e != nil {
 							return ci, e
 						}
@@ -353,18 +359,23 @@ func genPktzCase(t *rapid.T) *PktzCase {
 	}
 	c.SeqStart = uint16(biased(t, "seqstart", 0, 65535, 65530, 65531, 65532, 65533, 65534, 65535, 0, 1))
 	if genBool(t, "abs") {
-		c.AbsSendTime = rapid.IntRange(1, 14).Draw(t, "absid")
+		c.AbsSendTime = biased(t, "absid", 1, 255, 1, 14, 15, 16, 255) // 1-14: one-byte form, 15-255: two-byte form
 	}
 	if rapid.IntRange(0, 3).Draw(t, "clockzone") == 0 {
 		c.ClockZone = rapid.SampledFrom([]int{3600, -28800, 19800, 50400, -43200, 1172}).Draw(t, "clockzonev")
 	}
 	prevClock := int64(-1)
-	budget := int(c.MTU) - 12 - 8
+	budget := int(c.MTU) - 12 - 12
 	nops := rapid.IntRange(1, 10).Draw(t, "nops")
 	for i := 0; i < nops; i++ {
 		kind := rapid.SampledFrom([]string{"packetize", "packetize", "packetize", "skip", "padding"}).Draw(t, "kind")
+		if i > 0 && rapid.IntRange(0, 11).Draw(t, "reenable") == 0 {
+			kind = "enable"
+		}
 		op := PktzOp{Kind: kind}
 		switch kind {
+		case "enable":
+			op.N = uint32(biased(t, "newabsid", 0, 255, 0, 1, 14, 15, 16, 255))
 		case "skip":
 			op.N = genU32(t, "skip")
 		case "padding":
@@ -409,7 +420,7 @@ func genPktzCase(t *rapid.T) *PktzCase {
 	return c
 }
 
-const ruleC06 = "rapid draws a packetizer configuration (MTU 64-65535 biased to 64,65,100,267,1200,1500; PT; SSRC; fixed sequencer with start biased to 65530-65535/0 or random sequencer; abs-send-time off or id 1-14 with an injected clock (instants uniform in 1970-2036 or a small step after the previous call's, in the default or a fixed-offset zone); payloader in {G711,G722,Opus,VP8+-pid,VP9 flexible/non-flexible,H264+-STAP-A,H265+-DONL,AV1, scripted stub}) and 1-10 operations Packetize(non-empty payload, samples)/SkipSamples/GeneratePadding(0-5); one op in six is 'steered': its sample count is computed at run time from the learned first timestamp so that the next timestamp is exactly 0xFFFFFFFF, 0 or 1. Oracle: spy on the payloader (fragments unchanged and in order), sequence/timestamp model (learned first values), fixed fields, marker, abs-send-time = exact 6.18 value of the injected instant, MarshalSize<=MTU, marshal/parse equality, padding packets valid padding-only RTP; every packet returned earlier still serialises to the same bytes after all later calls. Non-trivial = >=2 productive Packetize calls, one with >=2 packets, with a Skip/Padding before one of them; distinct = FNV-64 of the JSON case"
+const ruleC06 = "rapid draws a packetizer configuration (MTU 64-65535 biased to 64,65,100,267,1200,1500; PT; SSRC; fixed sequencer with start biased to 65530-65535/0 or random sequencer; abs-send-time off or id 1-255 (one-byte form up to 14, two-byte form above; one operation in twelve calls EnableAbsSendTime again with another id or 0) with an injected clock (instants uniform in 1970-2036 or a small step after the previous call's, in the default or a fixed-offset zone); payloader in {G711,G722,Opus,VP8+-pid,VP9 flexible/non-flexible,H264+-STAP-A,H265+-DONL,AV1, scripted stub}) and 1-10 operations Packetize(non-empty payload, samples)/SkipSamples/GeneratePadding(0-5); one op in six is 'steered': its sample count is computed at run time from the learned first timestamp so that the next timestamp is exactly 0xFFFFFFFF, 0 or 1. Oracle: spy on the payloader (fragments unchanged and in order), sequence/timestamp model (learned first values), fixed fields, marker, abs-send-time = exact 6.18 value of the injected instant, MarshalSize<=MTU, marshal/parse equality, padding packets valid padding-only RTP; every packet returned earlier still serialises to the same bytes after all later calls. Non-trivial = >=2 productive Packetize calls, one with >=2 packets, with a Skip/Padding before one of them; distinct = FNV-64 of the JSON case"
 
 func TestC06(t *testing.T) {
 	r := begin(t, "C06", "exploration", ruleC06)
